@@ -3,6 +3,7 @@ import Driver.Util
 import Driver.Wire
 import Driver.Conn
 import Driver.C13
+import Driver.C14
 open Driver
 
 def dispatch (line : String) : Verdict :=
@@ -12,6 +13,7 @@ def dispatch (line : String) : Verdict :=
   | "C06" :: args => c06 args r
   | "C07" :: args => c07 args r
   | "C13" :: args => c13 args r
+  | "C14" :: args => c14 args r
   | _ => vBad line
 
 partial def loop (h : IO.FS.Stream) (out : IO.FS.Stream) (cov : Std.HashMap String Nat) : IO (Std.HashMap String Nat) := do
